@@ -15,12 +15,13 @@ PROP = dict(
     trusted_base=[
         "axioms: none (every theorem of Properties/C02.v is closed under the global context)",
         "KMeans: only an ABSTRACT model (the numeric core is an oracle); its arithmetic is not verified",
-        "the per-algorithm theorems for VnBest/VnFirst/FM/KL/ArcSwap are about the models of C14/C07/C15/C05 (KL at the flags of "
-        "Gen/KlGen.v) and are tied to the code by those checks; this check itself runs the implementation only (panic / hang / "
+        "the per-algorithm theorems for VnBest/VnFirst/FM/KL/ArcSwap are derived from the property theorems of Properties/C14, C07, C15, C05 "
+        "(by name; Proofs/C02Collect.v; KL at the flags of Gen/KlGen.v, for either edge_cut function) and are tied to the code by those checks; this check itself runs the implementation only (panic / hang / "
         "length / id bound)",
         "ArcSwap: sequential consistency of the atomics (the interleaving semantics of Model/ArcSwap.v) is assumed; no-panic / "
-        "termination are proved for the exact per-thread share (headroom_quot), which the f64 share of the code equals only "
-        "where C05's headroom_checked accepts it; integer i64 weights",
+        "termination are proved for the exact per-thread share (headroom_quot), which the f64 share of the code is proved to equal "
+        "for headrooms in [-512,512] and 1..4 threads (C05_f64_share_exact_small) and is checked per run beyond "
+        "(headroom_checked); integer i64 weights",
         "FM: every theorem quantifies over all oracles (iteration order of the gain buckets); the weight cap must convert to i64",
         "NOT proved: KernighanLin on three or more part ids (the code reaches unimplemented!: open known finding, the theorem "
         "C02_kl_two_parts_partial covers at most two ids); ArcSwap on a one-part input is only bounded by id <= 1",
@@ -35,8 +36,8 @@ PROP = dict(
 )
 
 MANIFEST = dict(
-    text="One theorem per improving algorithm, about that algorithm's Gallina model, collected in Properties/C02.v from C14, C07, "
-         "C15, C05 (glue in Proofs/C02Collect.v): under the contract the model returns Ok (no panic, no fuel exhaustion), the "
+    text="One theorem per improving algorithm, about that algorithm's Gallina model, collected in Properties/C02.v from the property "
+         "theorems of C14, C07, C15, C05 (by name; glue in Proofs/C02Collect.v): under the contract the model returns Ok (no panic, no fuel exhaustion), the "
          "array keeps its length and no id exceeds the input's maximum -- VnBest, VnFirst (full), FiducciaMattheyses (every "
          "bucket-order oracle: no panic, terminates within initial cut + 2 passes, completed runs stay in {0,1}; an accepted "
          "oracle exists), KernighanLin (PARTIAL: at most two part ids; labels only permuted), ArcSwap (every reachable state "
